@@ -334,9 +334,14 @@ pub enum HasherKind {
     Keyed,
     /// only four distinct hash values (id % 4): partial collisions
     Coarse,
+    /// a hasher that specialises `BuildHasher::hash_one` (as ahash does): hashing a value in one
+    /// shot gives another number than streaming it through `build_hasher()`; a table is only
+    /// consistent if every lookup and insertion goes through the same entry point
+    OneShot,
 }
 
-pub const HASHER_KINDS: [HasherKind; 6] = [
+pub const HASHER_KINDS: [HasherKind; 7] = [
+    HasherKind::OneShot,
     HasherKind::Coarse,
     HasherKind::Random,
     HasherKind::Fixed,
@@ -360,6 +365,7 @@ pub enum HB {
     Xx(u64),
     Colliding,
     Coarse,
+    OneShot,
     #[cfg(feature = "std")]
     Keyed(std::collections::hash_map::RandomState),
 }
@@ -370,6 +376,7 @@ impl HB {
             HasherKind::Xx => HB::Xx(0x9e37_79b9),
             HasherKind::Colliding => HB::Colliding,
             HasherKind::Coarse => HB::Coarse,
+            HasherKind::OneShot => HB::OneShot,
             #[cfg(feature = "std")]
             HasherKind::Keyed | HasherKind::Random => {
                 HB::Keyed(std::collections::hash_map::RandomState::new())
@@ -430,8 +437,20 @@ impl BuildHasher for HB {
             HB::Xx(s) => HH::Xx(twox_hash::XxHash64::with_seed(*s)),
             HB::Colliding => HH::Zero,
             HB::Coarse => HH::Mod4(0),
+            HB::OneShot => HH::Xx(twox_hash::XxHash64::with_seed(0x51)),
             #[cfg(feature = "std")]
             HB::Keyed(r) => HH::Sip(r.build_hasher()),
+        }
+    }
+    #[inline]
+    fn hash_one<T: Hash>(&self, x: T) -> u64 {
+        let mut h = self.build_hasher();
+        x.hash(&mut h);
+        let v = h.finish();
+        match self {
+            // the specialised one-shot path: a different, equally good hash function
+            HB::OneShot => (v ^ 0xA5A5_5A5A_C3C3_3C3C).rotate_left(29).wrapping_mul(0x9E37_79B9_7F4A_7C15),
+            _ => v,
         }
     }
 }
